@@ -48,6 +48,17 @@ def owner(what, cfg, calls=0):
     return "C12"
 
 
+def owners(what, cfg, calls=0):
+    """All properties a mismatch belongs to: the primary one and, for a one-parse result under the cost flag that is not a translation
+    at all, C02 as well (C02 speaks about the single returned tree whatever the cost flag; C04 about its minimality)."""
+    o = {owner(what, cfg, calls)}
+    parts = cfg.split(",") if cfg and (cfg[0].isdigit() or cfg.startswith("-")) else None
+    if parts and len(parts) >= 7 and int(parts[1]) and what.startswith(("denoted tree is not a translation", "NIL node", "ERROR node", "TERM attribute", "NULL child")) \
+            and not (what.startswith("TERM attribute") and calls > 0):
+        o.add("C02")
+    return o
+
+
 def gid_of(vec):
     if vec.get("id"):
         return str(vec["id"])
